@@ -1011,6 +1011,14 @@ def flow_oracle(case, p2, p3, target):
     return None
 
 
+def c_ann(pa):
+    """Gallina for what json.loads gives on the annotation text: None = no text / not parseable;
+    a parsed JSON null is (Some JNull)"""
+    if pa is None or pa[0] == "bad":
+        return "None"
+    return f"(Some {cjson(pa[1])})"
+
+
 def c_policy(policy, delay):
     if policy == "never":
         return "PNever"
@@ -1052,7 +1060,7 @@ def tail_term(case, va, pobs):
             calls.append("ODelete")
     cfg = "{| tc_should_own := %s; tc_owner_ref := %s; tc_update := %s |}" % (
         cbool(case["owned"]), cjson(OWNER_REF), c_policy(case["policy"], case["delay"]))
-    return f"CTail {cfg} {cjson(va['t'])} {cjson(live)} {copt(ann, cjson)} {r} {clist(calls, str)}"
+    return f"CTail {cfg} {cjson(va['t'])} {cjson(live)} {c_ann(pa)} {r} {clist(calls, str)}"
 
 
 def flow_in_model(va):
